@@ -1072,6 +1072,8 @@ def install_default_models(reg):
                 # composed-machine level: whether a string matches is an uninterpreted function of
                 # (pattern, string) - an over-approximation that keeps string theory out of the paths
                 m = uf("re_matches", StringS, StringS, BoolS)(z3.StringVal(pat), s.z)
+                # the one fact kept: a match is at least as long as the pattern's mandatory atoms
+                it.ctx.assume(z3.Implies(m, z3.Length(s.z) >= rx.min_length(pat)))
                 return VOpt(z3.Not(m), mo)
             try:
                 r = rx.compile_search(pat, mode, unicode_digits=(s.kind == "str"))
